@@ -151,6 +151,10 @@ func (p *parser) expect(t token.Token) tok {
 }
 
 func (p *parser) expr() *Expr {
+	return p.iff()
+}
+
+func (p *parser) quant() *Expr {
 	if p.isIdent("forall") || p.isIdent("exists") {
 		op := p.next().lit
 		var bs []Binder
@@ -174,7 +178,7 @@ func (p *parser) expr() *Expr {
 		body := p.expr()
 		return &Expr{Op: op, Binders: bs, Args: []*Expr{body}}
 	}
-	return p.iff()
+	return nil
 }
 
 func (p *parser) iff() *Expr {
@@ -191,12 +195,7 @@ func (p *parser) impl() *Expr {
 	l := p.or()
 	if p.isIdent("__IMP__") {
 		p.next()
-		var r *Expr
-		if p.isIdent("forall") || p.isIdent("exists") {
-			r = p.expr()
-		} else {
-			r = p.impl()
-		}
+		r := p.impl()
 		return &Expr{Op: "binop", Name: "==>", Args: []*Expr{l, r}}
 	}
 	return l
@@ -311,6 +310,9 @@ func (p *parser) postfix() *Expr {
 }
 
 func (p *parser) primary() *Expr {
+	if p.isIdent("forall") || p.isIdent("exists") {
+		return p.quant()
+	}
 	t := p.next()
 	switch t.t {
 	case token.IDENT:
@@ -567,9 +569,7 @@ func (ss *SpecSet) ParseSpecFile(path string, goComments bool, pkgPath string) e
 			}
 			fc.Pkg = pkgPath
 			fc.File, fc.Line = path, it.line
-			if pkgPath != "" && !strings.Contains(fc.Key, "/") && !goComments == false {
-				fc.Key = qualifyKey(pkgPath, fc.Key)
-			} else if pkgPath != "" && !strings.Contains(fc.Key, "/") {
+			if goComments && pkgPath != "" && !strings.Contains(fc.Key, "/") {
 				fc.Key = qualifyKey(pkgPath, fc.Key)
 			}
 			if _, dup := ss.Funcs[fc.Key]; dup {
